@@ -323,3 +323,59 @@ func (pf Profile) Gen(t *rapid.T) Scenario {
 	}
 	return sc
 }
+
+// GenAPIHistory draws a C12 case.
+func GenAPIHistory(t *rapid.T) APIHistory {
+	pf := ProfileDefault
+	pf.PFailSeqAct, pf.PFailCheckAct, pf.PContFail, pf.PRetry, pf.PBypass, pf.PGroup = 0, 0, 0, 0, 0, 20
+	pf.MaxBlocks, pf.MaxSeqs, pf.MaxActs, pf.PGate, pf.RichOutcomes, pf.PDelay = 2, 3, 2, 35, false, 0
+	h := APIHistory{}
+	np := sized(t, 2, "nPlans")
+	for i := 0; i < np; i++ {
+		p := pf.genPlan(t)
+		h.Plans = append(h.Plans, p)
+	}
+	// all scripts must succeed at the first invocation with Retries 0
+	sc := Scenario{Plans: h.Plans}
+	sc.EachAction(func(r Ref, a *ActionSpec) {
+		a.Retries = 0
+		gate := 0
+		if len(a.Script) > 0 {
+			gate = a.Script[0].Gate
+		}
+		a.Script = []Step{{Out: OK, Lat: uniform(t, 4, "lat"), Gate: gate}}
+	})
+	if pct(t, 15, "maxSubmit") {
+		h.MaxSubmitMs = pick(t, []int{1, 5}, "maxSubmitMs")
+		h.Stale = true
+	}
+	for i := 0; i < np; i++ {
+		if pct(t, 85, "submitFirst") {
+			h.Ops = append(h.Ops, APIOp{Kind: OpSubmit, Plan: i})
+		}
+	}
+	n := rng(t, 2, 12, "nOps")
+	for i := 0; i < n; i++ {
+		op := APIOp{Plan: rng(t, -1, np-1, "plan")}
+		switch pick(t, []int{0, 1, 2, 2, 2, 3, 3, 3, 4, 4, 5, 6, 7}, "kind") {
+		case 0:
+			op.Kind = OpSubmit
+		case 1:
+			op.Kind, op.Arg = OpSubmitInvalid, uniform(t, 9, "invalidKind")
+		case 2:
+			op.Kind = OpStart
+		case 3:
+			op.Kind, op.N, op.DelayUs = OpStartRace, rng(t, 2, 8, "raceN"), pick(t, []int{0, 0, 20, 100, 500, 2000}, "raceDelay")
+		case 4:
+			op.Kind, op.Arg = OpWait, pick(t, []int{0, 0, 1, 5}, "waitMs")
+		case 5:
+			op.Kind, op.Arg = OpStatus, rng(t, 0, 3, "statusN")
+		case 6:
+			op.Kind = OpPlan
+		case 7:
+			op.Kind, op.Arg = OpSleep, pick(t, []int{50, 500, 3000}, "sleepUs")
+		}
+		h.Ops = append(h.Ops, op)
+	}
+	return h
+}
